@@ -160,6 +160,10 @@ pub fn probe_sample(json: &str) -> i32 {
 
 impl Prop for C13 {
     type Case = SampleCase;
+    fn admissible(c: &SampleCase) -> bool {
+        !c.isolate && c.words.len() <= 64
+    }
+
     const ID: &'static str = "C13";
     const RULE: &'static str = "case = one distribution accepted by Dist::validate (candidates: all 11 families, parameters from the corner pool admitted by validation and log-uniform ordinary values; start/max from {0, ordinary, negative, huge, infinite, NaN}; plus candidates beyond the performance bounds of validation, which the pinned tree rejects) x random source = prefix of 0..=12 extreme words (all-zero, all-one, alternating, single bits, words adjacent to the f64/f32 conversion edges, random) followed by a seeded Xoshiro256** stream x consumer (Dist::sample x4, Counter::sample_value, or a one-state framework using it as timeout/duration/limit). Non-trivial: non-empty word prefix, or start/max different from 0 (clamping in play). Distinct = hash of the case.";
 
